@@ -693,6 +693,10 @@ def gen_case(rng, profile="model", params=None, opts=None):
         weights.update({"rcast": 3 if U else 0, "r2i": 3, "i2r": 3, "nothastag": 2, "bassign": 2, "bassign_ref": 3,
                         "bassume": 2, "assume_nref": 3, "nonnull": 2, "forget": 2, "project": 1, "select": 1,
                         "widenthr": 1, "q_entails": 2})
+    if not full and params[3] == "1":
+        # the offset / size ghost variables of is_dereferenceable are not modelled: leave out the
+        # modelled operations that can observe them (meet, narrowing; reference equalities above)
+        weights.update({"meet": 0, "narrow": 0})
     weights.update(opts.get("weights", {}))
     names = [k for k, v in weights.items() if v > 0]
     ws = [weights[k] for k in names]
@@ -766,8 +770,10 @@ def gen_case(rng, profile="model", params=None, opts=None):
                 ops.append(pre + "u %s %s" % (rng.choice(["eq", "ne", "gt", "eq", "ne", "le", "ge", "lt"]), rng.choice(P)))
             else:
                 p, q = rng.choice(P), rng.choice(P)
-                ops.append(pre + "b %s %s %s %d" % (rng.choice(["eq", "eq", "ne", "lt", "le", "gt", "ge"]), p, q,
-                                                    rng.choice([0, 0, 0, 4, -4])))
+                rels = ["eq", "eq", "ne", "lt", "le", "gt", "ge"]
+                if not full and params[3] == "1":
+                    rels = ["ne", "lt", "le", "gt", "ge"]   # offset/size ghost variables are not modelled
+                ops.append(pre + "b %s %s %s %d" % (rng.choice(rels), p, q, rng.choice([0, 0, 0, 4, -4])))
         elif pick == "nonnull":
             ops.append("nonnull %d %s" % (r, rng.choice(P)))
         elif pick == "selref":
@@ -791,7 +797,8 @@ def gen_case(rng, profile="model", params=None, opts=None):
             ops.append("assign %d %s %s" % (r, rng.choice(I), fmt_exp(*small_exp(I))))
         elif pick == "arith":
             z = "v %s" % rng.choice(I) if rng.random() < 0.5 else "k %d" % rng.choice([1, 2, 3, -1, 0, 7])
-            ops.append("arith %d %s %s %s %s" % (r, rng.choice(["add", "sub", "mul", "sdiv", "srem"]), rng.choice(I), rng.choice(I), z))
+            ops.append("arith %d %s %s %s %s" % (r, rng.choice(["add", "sub", "mul", "sdiv", "srem"] if full else ["add", "sub", "mul"]),
+                                               rng.choice(I), rng.choice(I), z))
         elif pick == "assume":
             x = rng.choice(I); kk = rng.choice(SMALL)
             c = rng.choice([("le", [(1, x)], -kk), ("le", [(-1, x)], kk), ("eq", [(1, x)], -kk), ("ne", [(1, x)], -kk)])
@@ -935,6 +942,8 @@ def gen(seed, tier, profile="model", n=None, params=None, opts=None):
         for j, (shape, nU, prefix) in enumerate(scs):
             pss = PARAMS if tier != "quick" else rng.sample(PARAMS, 6) + ["11101", "11111"]
             for ps in pss:
+                if profile != "full" and ps[3] == "1" and any(o.startswith("assume_ref") and " b eq " in o for o in prefix):
+                    continue
                 out.append(gen_case(rng, profile, ps, dict(opts or {}, shape=shape, nU=nU, prefix=prefix,
                                                            minops=0, maxops=rng.choice([0, 2, 6]))))
     for ps in PARAMS:
